@@ -1,10 +1,10 @@
 (** C15 — BCJ and delta filters are exact inverses, size-preserving, stable.
-    Proved here: delta (all distances), ARM (all data, all aligned offsets),
-    length preservation of the stride-4 filters.  NOT proved (explored and
-    tied by correspondence only; see evidence assumptions): round trips of
-    x86, ARM-Thumb, ARM64, PowerPC, SPARC, IA-64, RISC-V; the simple_coder
-    buffering protocol. *)
-From XZ Require Import Base Bcj BcjInst BcjProofs BcjProofs2.
+    Proved here: delta (all distances); ARM, PowerPC, SPARC, ARM64 (all data,
+    all 4-aligned offsets) and ARM-Thumb (all data, all 2-aligned offsets)
+    round trips; length preservation.  NOT proved (explored and tied by
+    correspondence only; see evidence assumptions): round trips of x86,
+    IA-64, RISC-V; the simple_coder buffering protocol. *)
+From XZ Require Import Base Bcj BcjInst BcjProofs BcjProofs2 BcjProofs3.
 Local Open Scope N_scope.
 
 Theorem delta_decode_encode : forall dist l, bytes_ok l -> delta_decode dist (delta_encode dist l) = l.
@@ -52,3 +52,26 @@ Theorem sparc_decode_encode : forall start l, aligned4 (w32 start) -> bytes_ok l
   fst (sparc_code false start (fst (sparc_code true start l))) = l.
 Proof. exact sparc_roundtrip. Qed.
 Print Assumptions sparc_decode_encode.
+
+Theorem arm64_decode_encode : forall start l, aligned4 (w32 start) -> bytes_ok l ->
+  fst (arm64_code false start (fst (arm64_code true start l))) = l.
+Proof. exact arm64_roundtrip. Qed.
+Print Assumptions arm64_decode_encode.
+
+(** ARM-Thumb: the 2-byte stride with a 4-byte step after a converted BL pair *)
+Theorem armthumb_decode_encode : forall start l, aligned2 (w32 start) -> bytes_ok l ->
+  fst (armthumb_code false start (fst (armthumb_code true start l))) = l.
+Proof. exact armthumb_roundtrip. Qed.
+Print Assumptions armthumb_decode_encode.
+
+Theorem armthumb_preserves_length : forall enc start l, length (fst (armthumb_code enc start l)) = length l.
+Proof. exact armthumb_length. Qed.
+Print Assumptions armthumb_preserves_length.
+
+(** the hypotheses are satisfiable and the filters do change data *)
+Example armthumb_changes_something :
+  aligned2 (w32 6) /\ fst (armthumb_code true 6 [0; 240; 1; 248; 9; 9]) <> [0; 240; 1; 248; 9; 9].
+Proof. split; [unfold aligned2, w32; lia|vm_compute; discriminate]. Qed.
+Example arm64_changes_something :
+  aligned4 (w32 4096) /\ fst (arm64_code true 4096 [1; 0; 0; 148; 7; 7]) <> [1; 0; 0; 148; 7; 7].
+Proof. split; [unfold aligned4, w32; lia|vm_compute; discriminate]. Qed.
